@@ -311,6 +311,9 @@ func runC12(c *Ctx) {
 
 	c12TerminalOnce(c)
 	c12PendingQueue(c)
+	batchHasNextFromLast(c)
+	hasNextAbsentIsFalse(c)
+	streamLoopExits(c)
 	c12FormatConstant(c)
 }
 
